@@ -42,7 +42,7 @@ def vlib_strip_go_comments(src):
 class P(vlib.Prop):
     pid = "C18"
     coq_dirs = ["Common", "C18"]   # + Generated/MemLimiter18.v and Generated/C18Api*.v, gated in extra_checks
-    coq_targets = ["C18/Properties.vo", "C18/Witness.vo", "C18/Harness.vo", "C18/Clauses.vo"]
+    coq_targets = ["C18/Properties.vo", "C18/Witness.vo", "C18/Harness.vo", "C18/Clauses.vo", "C18/Diff.vo"]
     properties_module = "C18.Properties"
     properties_file = "C18/Properties.v"
     instance_obligations = []
@@ -89,6 +89,9 @@ class P(vlib.Prop):
         "translator T1 also reads MemoryLimiter.MustRefuse, the extension's MustRefuse, NewDefaultConfig and the method "
         "sets of *MemoryLimiter / *memoryLimiterProcessor / *memoryLimiterExtension (Generated/MemLimiter18.v, C18ApiExt.v, C18ApiProc.v); C18/Obligations.v "
         "equates the hand-written model pieces and the audited method lists with them",
+        "clause oracle: C18/Clauses.v (decidable clause checkers over observed cases, sound by C18/ClausesSound.v for the "
+        "run/gate/life kinds) evaluated with vm_compute over every recorded case; C18/Diff.v specification twins + finite "
+        "grids for the domain search",
         "source obligations checked on the current text by props/C18/check.py: the only non-test caller of CheckMemLimits is "
         "the goroutine in Start, one goroutine is spawned, mustRefuse is written only by CheckMemLimits, lastGCDone only by "
         "NewMemoryLimiter and doGCandReadMemStats, Shutdown waits for the goroutine",
@@ -219,11 +222,11 @@ class P(vlib.Prop):
             body = out.split("=", 1)[-1].rsplit(":", 1)[0]
             found[name] = " ".join(body.split())[:400]
             return body
-        for m in re.finditer(r"\((-?\d+),\s*(-?\d+),\s*(-?\d+)\)", nums("diff_limit_predicates")):
+        for m in re.finditer(r"\(\s*(-?\d+)(?:%Z)?,\s*(-?\d+)(?:%Z)?,\s*(-?\d+)(?:%Z)?\)", nums("diff_limit_predicates")):
             focus.append("soft:%s,%s,%s" % m.groups())
-        for m in re.finditer(r"\((-?\d+),\s*(-?\d+)\)", nums("diff_fixed_checker")):
+        for m in re.finditer(r"\(\s*(-?\d+)(?:%Z)?,\s*(-?\d+)(?:%Z)?\)", nums("diff_fixed_checker")):
             focus.append("cfg:1000000000,0,0,%d,%d,0,0" % (int(m.group(1)) >> 20, int(m.group(2)) >> 20))
-        for m in re.finditer(r"\((-?\d+),\s*(-?\d+),\s*(-?\d+)\)", nums("diff_pct_checker")):
+        for m in re.finditer(r"\(\s*(-?\d+)(?:%Z)?,\s*(-?\d+)(?:%Z)?,\s*(-?\d+)(?:%Z)?\)", nums("diff_pct_checker")):
             focus.append("cfg:1000000000,0,0,0,0,%s,%s,%s" % (m.group(2), m.group(3), m.group(1)))
         for m in re.finditer(r"c_check := (-?\d+);\s*c_soft_int := (-?\d+);\s*c_hard_int := (-?\d+);\s*c_limit_mib := (-?\d+);"
                              r"\s*c_spike_mib := (-?\d+);\s*c_limit_pct := (-?\d+);\s*c_spike_pct := (-?\d+)", nums("diff_validate")):
@@ -236,6 +239,7 @@ class P(vlib.Prop):
                              extra_env={"VERIF_FOCUS": fo})
             cases, oracle, stats, err = vlib.run_harness(ctx, h, tier="focus")
             for f in oracle:
+                f["kind"] = "domain:" + f["kind"]
                 f["detail"] = "[argument found by domain enumeration, VERIF_FOCUS=%s] %s" % (fo, f["detail"])
                 ctx.oracle.append(f)
 
